@@ -4,6 +4,7 @@ package unifier
 
 import (
 	"encoding/json"
+	"errors"
 	"testing"
 	"time"
 
@@ -12,6 +13,8 @@ import (
 
 const verifUnit = 100 * time.Millisecond
 
+// Results are reported the way LifecycleUnifier.UnifyModels reports them: through
+// EndpointManager.RecordFailure / RecordSuccess.
 // TestVerif_UnifierBreaker replays TLC-generated scenarios on the real unifier.CircuitBreaker,
 // created by the EndpointManager from the package's default configuration.
 func TestVerif_UnifierBreaker(t *testing.T) {
@@ -44,10 +47,10 @@ func TestVerif_UnifierBreaker(t *testing.T) {
 				}
 				emit("Ask", "res", res)
 			case "Fail":
-				cb.RecordFailure()
+				mgr.RecordFailure("http://e1", errors.New("boom"))
 				emit("Fail")
 			case "Succ":
-				cb.RecordSuccess()
+				mgr.RecordSuccess("http://e1")
 				emit("Succ")
 			case "Tick":
 				d := zzverif.Int(args[0])
